@@ -252,6 +252,43 @@ class Program:
                 best, score = f, s
         return best
 
+    @functools.lru_cache(None)
+    def impl_generic_names(self, fname):
+        """names of the generic parameters of the impl block a function belongs to (from the source header)"""
+        m = re.match(r'(.*?)<impl at ([^>]+)>::', fname)
+        if not m:
+            return []
+        mm = re.match(r'(.+?):(\d+):(\d+): ', m.group(2))
+        lines = self.src(mm.group(1))
+        text = ' '.join(x.strip() for x in lines[int(mm.group(2)) - 1:int(mm.group(2)) + 3])
+        text = text[int(mm.group(3)) - 1:] if False else text
+        k = text.find('impl<')
+        if k < 0:
+            return []
+        e = match_angle(text, k + 4)
+        names = []
+        for part in mirparse.split_top(text[k + 5:e]):
+            part = part.strip()
+            if part.startswith("'"):
+                continue
+            names.append(re.match(r'(?:const\s+)?(\w+)', part).group(1))
+        return names
+
+    @functools.lru_cache(None)
+    def method_generic_names(self, method):
+        """type parameter names of `fn method<...>` as written in the source (first definition found)"""
+        pat = re.compile(r'fn\s+%s\s*<([^>(]*)>' % re.escape(method))
+        for path in sorted(glob.glob(os.path.join(self.repo, 'src/**/*.rs'), recursive=True)):
+            m = pat.search(open(path).read())
+            if m:
+                out = []
+                for part in m.group(1).split(','):
+                    part = part.strip()
+                    if part and not part.startswith("'"):
+                        out.append(re.match(r'(?:const\s+)?(\w+)', part).group(1))
+                return out
+        return []
+
     def closure_fn(self, span):
         return self.closures.get(span)
 
